@@ -72,7 +72,7 @@ var pointerKinds = []string{"ptrInt", "nilPtrInt", "ptrStr", "nilMap", "nilSlice
 var addrKinds = []string{"chan", "func", "uptr", "NChan"}
 var methodKinds = []string{"Stringer", "PStringer", "NilPStringer", "PStringerVal", "Err", "StdErr", "WrapErr", "PErr", "NilPErr", "ErrStringer",
 	"GoStringer", "GoStrStringer", "Fmter", "PadFmter", "ErrFmter", "FmtFlags"}
-var panicKinds = []string{"PanicStringer", "PanicErr", "PanicGoStr", "PanicFmter"}
+var panicKinds = []string{"PanicStringer", "PanicErr", "PanicGoStr", "PanicFmter", "NilSliceStringer", "NilMapErr", "NilFuncStringer"}
 var safeKinds = []string{"SVInt", "SVStr", "SVFloat", "SVBytes", "SVStringer", "ISafeString", "ISafeInt", "ISafeUint", "ISafeFloat", "ISafeRune", "ISafeByte", "ISafeBytes",
 	"RegInt", "RegStr", "RegDur"}
 
